@@ -3541,7 +3541,15 @@ class FuncRun(ValueFunc):
             raise CklRuntimeError(
                 ValueString("ERROR"), "File " + path + " not found", pos
             )
-        return self.interpreter.interpret(script, file)
+        try:
+            return self.interpreter.interpret(script, file)
+        except CklSyntaxError as e:
+            # like eval and parse: a built-in raises runtime errors only
+            raise CklRuntimeError(
+                ValueString("ERROR"),
+                "Cannot run " + file + ": " + e.msg + " (" + str(e.pos) + ")",
+                pos,
+            )
 
 
 class FuncS(ValueFunc):
